@@ -910,7 +910,200 @@ def gen_c16alias():
     return 'C16Alias.lean', '\n'.join(L), echo
 
 
-GENERATORS = [gen_c16alias]
+# ------------------------------------------------------------------ round 2 (L7): exception handlers and the copy path
+def _exc_names(h):
+    if h.type is None:
+        return ['<bare>']
+    if isinstance(h.type, ast.Tuple):
+        return [dotted(e) or '?' for e in h.type.elts]
+    return [dotted(h.type) or '?']
+
+
+def _always_raises(body):
+    """every path through the statement list ends in `raise`"""
+    for st in body:
+        if isinstance(st, ast.Raise):
+            return True
+        if isinstance(st, ast.If) and st.orelse and _always_raises(st.body) and _always_raises(st.orelse):
+            return True
+        if isinstance(st, (ast.With,)) and _always_raises(st.body):
+            return True
+        if isinstance(st, ast.Try) and st.finalbody and _always_raises(st.finalbody):
+            return True
+    return False
+
+
+def _walk_no_defs(stmts):
+    """all nodes of the statements, nested function / class bodies excluded (their names are yielded)"""
+    todo = list(stmts)
+    while todo:
+        n_ = todo.pop()
+        yield n_
+        if isinstance(n_, (ast.FunctionDef, ast.AsyncFunctionDef, ast.ClassDef)):
+            continue
+        todo.extend(ast.iter_child_nodes(n_))
+
+
+def _assigned_names(body):
+    out = set()
+    if True:
+        for node in _walk_no_defs(body):
+            if isinstance(node, (ast.Assign, ast.AugAssign, ast.AnnAssign)):
+                tg = node.targets if isinstance(node, ast.Assign) else [node.target]
+                for t_ in tg:
+                    for n_ in ast.walk(t_):
+                        if isinstance(n_, ast.Name):
+                            out.add(n_.id)
+                        elif isinstance(n_, ast.Attribute):
+                            out.add(dotted(n_) or '?')
+            elif isinstance(node, (ast.Import, ast.ImportFrom)):
+                out.update((a.asname or a.name).split('.')[0] for a in node.names)
+            elif isinstance(node, (ast.FunctionDef, ast.ClassDef)):
+                out.add(node.name)
+    return sorted(out)
+
+
+def _handlers_of(fn_body):
+    """(line of try, exception types, re-raises on every path, returns a value, names bound in the handler) for every handler
+    of every `try` lexically inside the statement list (nested functions / classes excluded)"""
+    rows = []
+
+    def walk(stmts):
+        for st in stmts:
+            if isinstance(st, (ast.FunctionDef, ast.AsyncFunctionDef, ast.ClassDef)):
+                continue
+            if isinstance(st, ast.Try) or st.__class__.__name__ == 'TryStar':
+                for h in st.handlers:
+                    rr = _always_raises(h.body)
+                    returns = any(isinstance(n_, ast.Return) for n_ in _walk_no_defs(h.body))
+                    rows.append((st.lineno, _exc_names(h), rr, returns, [] if rr else _assigned_names(h.body)))
+                    walk(h.body)
+                walk(st.body); walk(st.orelse); walk(st.finalbody)
+            else:
+                for fld in ('body', 'orelse', 'finalbody'):
+                    sub = getattr(st, fld, None)
+                    if isinstance(sub, list):
+                        walk(sub)
+    walk(fn_body)
+    return rows
+
+
+def _call_name(node):
+    """dotted name of the callee when `node` is a call; a bare name / attribute as written otherwise"""
+    if isinstance(node, ast.Call):
+        return dotted(node.func) or '?'
+    return '=' + (dotted(node) or node.__class__.__name__)
+
+
+def _sources_of(fn, node, seen=()):
+    """what may flow into the expression `node` inside `fn`: the callee names; local names are followed through every
+    assignment to them anywhere in the function (any branch, any handler)"""
+    if isinstance(node, ast.Name) and node.id not in seen and node.id not in [a.arg for a in fn.args.args]:
+        out = []
+        for st in ast.walk(fn):
+            if isinstance(st, ast.Assign) and any(isinstance(t_, ast.Name) and t_.id == node.id for t_ in st.targets):
+                out += _sources_of(fn, st.value, seen + (node.id,))
+            elif isinstance(st, ast.AugAssign) and isinstance(st.target, ast.Name) and st.target.id == node.id:
+                out.append('aug')
+        return out or ['=' + node.id]
+    if isinstance(node, ast.IfExp):
+        return _sources_of(fn, node.body, seen) + _sources_of(fn, node.orelse, seen)
+    if isinstance(node, ast.BoolOp):
+        return [x for v in node.values for x in _sources_of(fn, v, seen)]
+    return [_call_name(node)]
+
+
+COPY_OPERATORS = ['__add__', '__sub__', '__mul__', '__div__', '__truediv__']
+
+
+def gen_c16copypath():
+    """try/except structure of every function of the registry files (which handlers complete normally = swallow the exception),
+    and the copy path of TimeSeries: where copy()'s data / time / metadata arguments come from and what the operators call"""
+    echo, rows, parsed = {}, [], True
+    copy_meta, copy_data, copy_time, copy_found, ops = [], [], [], False, []
+    for path in ALL_FILES:
+        try:
+            tree = T.parse(path)
+        except (SyntaxError, OSError) as e:
+            parsed = False
+            echo[path] = 'unparsable: %r' % e
+            continue
+        mod = path[len('nitime/'):-3].replace('/', '.')
+        for ln, exc, rr, ret, bound in _handlers_of(tree.body):
+            rows.append((mod, '<module>', ln, exc, rr, ret, bound))
+        for q, f, cls in functions_of(tree):
+            for ln, exc, rr, ret, bound in _handlers_of(f.body):
+                rows.append((mod, q, ln, exc, rr, ret, bound))
+        if path == 'nitime/timeseries.py':
+            aliases, meths = {}, {}
+            for cname in ('TimeSeriesBase', 'TimeSeries'):       # base first: the derived class overrides
+                for node in ast.walk(tree):
+                    if isinstance(node, ast.ClassDef) and node.name == cname:
+                        for st in node.body:       # `__truediv__ = __div__`
+                            if isinstance(st, ast.Assign) and isinstance(st.value, ast.Name):
+                                for t_ in st.targets:
+                                    if isinstance(t_, ast.Name):
+                                        aliases[t_.id] = st.value.id
+                                        meths.pop(t_.id, None)
+                            elif isinstance(st, ast.FunctionDef):
+                                meths[st.name] = st
+                                aliases.pop(st.name, None)
+            for node in [1]:
+                if True:
+                    cp = meths.get('copy')
+                    if cp is not None:
+                        rets = [n_ for n_ in ast.walk(cp) if isinstance(n_, ast.Return) and n_.value is not None]
+                        copy_found = len(rets) >= 1
+                        for r_ in rets:
+                            if isinstance(r_.value, ast.Call) and dotted(r_.value.func) in ('TimeSeries', 'self.__class__', 'type(self)'):
+                                kw = {k_.arg: k_.value for k_ in r_.value.keywords}
+                                pos = list(r_.value.args)
+                                copy_data += _sources_of(cp, kw.get('data', pos[0] if pos else ast.Name(id='<missing>')))
+                                copy_time += _sources_of(cp, kw['time']) if 'time' in kw else ['<missing>']
+                                copy_meta += _sources_of(cp, kw['metadata']) if 'metadata' in kw else ['<missing>']
+                            else:
+                                copy_meta.append('<return not a TimeSeries(...) call>')
+                    for opn in COPY_OPERATORS:
+                        m_ = meths.get(aliases.get(opn, opn))
+                        if m_ is None:
+                            ops.append((opn, [], False))
+                            continue
+                        # where `out` (the returned name) comes from, and whether it is rebound / the operand returned
+                        rets = [n_.value for n_ in ast.walk(m_) if isinstance(n_, ast.Return) and n_.value is not None]
+                        srcs = sorted({x for r_ in rets for x in _sources_of(m_, r_)})
+                        ops.append((opn, srcs, len(rets) == 1))
+    swallow = [r for r in rows if not r[4]]
+    echo['handlers'] = len(rows)
+    echo['handlers_completing_normally'] = ['%s.%s:%d except %s binds %s%s' % (r[0], r[1], r[2], '/'.join(r[3]), r[6], ' returns' if r[5] else '') for r in swallow]
+    echo['copy_metadata_sources'] = copy_meta
+    echo['copy_data_sources'] = copy_data
+    echo['copy_time_sources'] = copy_time
+    echo['operators'] = {o: s_ for o, s_, _ in ops}
+    b = lambda v: 'true' if v else 'false'
+    L = ['-- GENERATED by harness/translate_c16.py (gen_c16copypath) from ' + ', '.join(ALL_FILES) + '. DO NOT EDIT.',
+         '-- exception handlers of the registry files, and where TimeSeries.copy() / the arithmetic operators take their parts from.',
+         'namespace Nitime.Generated.C16CopyPath', '',
+         '/-- one `except` clause: `reraises` = every path through the handler ends in `raise`; otherwise the handler completes normally',
+         '(the exception is swallowed): `returns` = it contains a `return`, `binds` = the names it assigns (the substitute values) -/',
+         'structure Handler where', '  module : String', '  func : String', '  line : Nat', '  catches : List String', '  reraises : Bool',
+         '  returns : Bool', '  binds : List String', '  deriving Repr, DecidableEq', '',
+         '/-- every registry file parsed -/', 'def parsed : Bool := ' + b(parsed), '',
+         'def handlers : List Handler := [']
+    L.append(',\n'.join('  ⟨"%s", "%s", %d, %s, %s, %s, %s⟩' % (r[0], r[1], r[2], lstr(r[3]), b(r[4]), b(r[5]), lstr(r[6])) for r in rows))
+    L += [']', '',
+          '/-- `TimeSeries.copy` found, with `return TimeSeries(...)` -/', 'def copyFound : Bool := ' + b(copy_found),
+          '/-- callees whose results may reach the `metadata=` argument of the series built by `TimeSeries.copy` (local names followed',
+          'through every assignment in the function, handlers included) -/',
+          'def copyMetadataSources : List String := ' + lstr(copy_meta),
+          'def copyDataSources : List String := ' + lstr(copy_data),
+          'def copyTimeSources : List String := ' + lstr(copy_time), '',
+          '/-- arithmetic operator of TimeSeries ↦ callees that may produce the object it returns, and "exactly one return" -/',
+          'def operators : List (String × List String × Bool) := [' + ', '.join('("%s", %s, %s)' % (o, lstr(s_), b(one)) for o, s_, one in ops) + ']',
+          '', 'end Nitime.Generated.C16CopyPath', '']
+    return 'C16CopyPath.lean', '\n'.join(L), echo
+
+
+GENERATORS = [gen_c16alias, gen_c16copypath]
 
 if __name__ == '__main__':
     import json
